@@ -24,6 +24,8 @@ def main():
             mod.replay(ctx, v)
         else:
             mod.run(ctx)
+            if os.environ.get("VERIF_SECOND_PASS", "1") != "0":
+                ctx.run_second_pass(mod.replay, 400 if a.tier == "quick" else 3000)
         rc = ctx.finish()
     except core.MachineryError as e:
         print("MACHINERY-ERROR property=%s: %s" % (prop, e))
